@@ -331,7 +331,7 @@ def all_active_finished(states):
 @harness('G3', targets=[f'{PROG}.State.done', f'{PROG}.State.delays', f'{PROG}.State.delay', f'{PROG}.State.with_outcomes',
                         f'{PROG}.State.with_handlers', f'{PROG}.State.with_purpose'],
          props=['C02', 'C06', 'C03', 'C14', 'C11', 'C10', 'C09', 'C05', 'C12', 'C15', 'C17', 'C18', 'C20'],
-         prop_clauses={'C14': ['with_purpose_repurposes']},     # a superseded resume cycle must not lose its finished handlers' records
+         prop_clauses={'C14': ['with_purpose_repurposes', 'done_iff_all_active_finished', 'with_outcomes_applies_exactly', 'with_handlers_activates_selected', 'closed_iff_selected_finished']},     # a superseded resume cycle must not lose its finished handlers' records
          clauses=['done_iff_all_active_finished', 'delays_empty_iff_all_active_finished', 'delays_cover_remaining', 'delay_is_min',
                   'with_outcomes_unknown_raises', 'with_outcomes_applies_exactly', 'with_handlers_activates_selected',
                   'with_purpose_repurposes', 'closed_iff_selected_finished', 'immutable'],
@@ -722,7 +722,8 @@ class _CycleState:
     def store(self, body, patch, storage): self.vc.emit('store', self, body, patch, storage)
 
 
-@harness('H8', targets='kopf._core.reactor.subhandling.execute', props=['C02', 'C11', 'C06', 'C03', 'C16'],
+@harness('H8', targets='kopf._core.reactor.subhandling.execute', props=['C02', 'C11', 'C06', 'C03', 'C16', 'C08', 'C15'],
+         prop_clauses={'C08': ['stored_before_escalation'], 'C15': ['state_threaded', 'registry_from_arguments']},
          clauses=['children_retry_iff_not_done', 'state_threaded', 'stored_before_escalation', 'subrefs_registered',
                   'implicit_once', 'registry_from_arguments', 'rejects_bad_usage', 'errors_propagate'],
          canaries=['canary.never_retries', 'canary.always_executes'],
